@@ -86,6 +86,24 @@ def handler(st, opts):
                 elif not torch.equal(out, exp):
                     problems.append(P("value", "forward on integer parameters differs from the model (max |diff| %g, %s)" % (
                         (out - exp).abs().max().item(), dtn)))
+            # (b2) inference mode with a history: eval(); forward; the parameters are replaced (as load_state_dict or an optimizer step
+            #      would); forward again - the layer is the affine map of its *current* parameters
+            try:
+                layer.eval()
+                xe = torch.randn(bsh + size_in, dtype=dt)
+                layer(xe)
+                with torch.no_grad():
+                    for p_ in layer.parameters():
+                        p_.copy_(torch.randn(p_.shape, dtype=dt))
+                oe = layer(xe)
+                We = project.dense([c.detach() for c in layer.cores])
+                re_ = torch.tensordot(xe, We, dims=(list(range(nb, nb + d)), list(range(d, 2 * d)))) + layer.bias.detach()
+                tole = 1e-10 if dt == torch.float64 else 2e-4
+                if list(oe.shape) != list(re_.shape) or (oe.detach() - re_).abs().max().item() > tole * max(1.0, re_.abs().max().item()):
+                    problems.append(P("value", "in eval mode, forward after the parameters were replaced is not W.x+b of the current parameters", {"init": init}))
+                layer.train()
+            except Exception as e:  # noqa
+                problems.append(P("exception", "eval-mode history raised %s: %s" % (type(e).__name__, str(e)[:200]), {"exc": type(e).__name__, "phase": "eval"}))
             # (c) the layer converted as a torch module (.double() / .float()): it is still the dense affine map of its
             #     (converted) parameters - "any dtype" includes a dtype reached by conversion
             try:
